@@ -10,9 +10,9 @@ echo "== suite with change (demo moved aside)"; mv $demo /tmp/mut/$id.demo.rs
 cargo test --workspace --no-fail-fast --offline 2>&1 | grep "^test result" | awk '{p+=$4; f+=$6} END {print "passed="p" failed="f}'
 mv /tmp/mut/$id.demo.rs $demo
 echo "== demo with change (expect failure)"; cargo test --offline --test seeded_$id 2>&1 | grep "^test result\|panicked" | head -5
-git stash push -q -- src
+git diff -- src > /tmp/mut/$id.confirm.diff; git checkout -- src
 echo "== demo without change (expect pass)"; cargo test --offline --test seeded_$id 2>&1 | grep "^test result" | head -3
-git stash pop -q
+git apply /tmp/mut/$id.confirm.diff
 git diff --stat -- src | tail -1
 } > $out 2>&1
 echo done >> $out
